@@ -1,0 +1,15 @@
+//go:build verif
+
+package types
+
+// SealHook, when set, may decide the outcome of the proof-of-work seal check of a header instead
+// of the ethash computation (verification harness only: synthetic branches cannot be mined).
+// It must return handled=false for headers whose seal is to be checked for real.
+var SealHook func(header Header) (handled bool, err error)
+
+func sealHook(header Header) (handled bool, err error) {
+	if SealHook == nil {
+		return false, nil
+	}
+	return SealHook(header)
+}
